@@ -27,6 +27,7 @@ class Rec:
         self.pkey = {}           # pipeline_id -> index in arrival order
         self.arrival = {}        # pipeline_id -> (tick, order)
         self.parents0 = {}       # id(op) -> ids of its parents when the pipeline arrived
+        self.true_par = {}       # id(op) -> parent operators as the scenario declared them (scenario workloads only)
         self.arr_tick = {}       # id(pipeline) -> arrival tick (ids may legitimately recur once a pipeline has finished)
         self.rounds = []
         self.tick_results = []   # per executor tick: list of results
@@ -43,6 +44,8 @@ class Rec:
         self.emitted = []        # per tick: list of pipeline ids emitted by the workload
         self.op_index = {}       # id(op) -> (pipeline order, op order)
         self.hold = []           # keeps every object whose id() is used as a key alive
+        self.declared_differs = None
+        self.deferred = None
         self.internal = False    # True: run_simulator builds its own WorkloadGenerator; the scheduler wrapper keeps the clock
 
     def probe(self, k, n=1):
@@ -62,6 +65,10 @@ class Rec:
             self.arr_tick[id(p)] = self.tick
             for oi, op in enumerate(p.values):
                 self.parents0[id(op)] = tuple(id(q) for q in op.parents)
+                tp = self.true_par.get(id(op))
+                if tp is not None and sorted(id(q) for q in tp) != sorted(id(q) for q in op.parents):
+                    # what the pipeline records differs from what was declared when it was built
+                    self.declared_differs = {"pipeline": p.pipeline_id, "op": oi, "declared": len(tp), "recorded": len(op.parents)}
                 self.op_index[id(op)] = (len(self.pipes) - 1, oi)
                 self.log.register(op, (len(self.pipes) - 1, oi))
                 self.hold.append(op)
@@ -100,6 +107,10 @@ def make_scn_workload(scn, rec):
                     done = [x for x in done if x not in [q.pipeline_id for q in out]]     # not twice within one tick
                     if done:
                         pid = self.rr.choice(done)
+                        if self.rr.random() < 0.5:
+                            # the job that finished last comes back first (possibly in the very next tick)
+                            ft = {q.pipeline_id: q.runtime_status().finish_tick for q in rec.pipes if q.pipeline_id in done}
+                            pid = max(done, key=lambda x: ft[x])
                         rec.probe("pipeline_id_reused")
                 p = Pipeline(pid, Priority[pd["prio"]])
                 rops = []
@@ -119,6 +130,7 @@ def make_scn_workload(scn, rec):
                         op.add_segment(Segment(baseline_cpu_seconds=float(b), cpu_scaling=law,
                                                memory_gb=None if mem is None else float(mem),
                                                storage_read_gb=float(read)))
+                    rec.true_par[id(op)] = [rops[j] for j in od.get("par", [])]
                     rops.append(op)
                 out.append(p)
             rec.tick = self.t
@@ -154,9 +166,12 @@ def wrap_workload(inner, rec):
 # seam 2: scheduler wrapper, registered through the public decorators
 # ---------------------------------------------------------------------------
 def ready_ops(p, states):
+    """ready = every parent completed; parents as the scenario declared them where known (what the operators record
+    themselves is part of what is under test)"""
     st = p.runtime_status().operator_states
     from eudoxia.workload import OperatorState as S
-    return [o for o, s in st.items() if s.value in states and all(st[q] == S.COMPLETED for q in o.parents)]
+    tp = REC.true_par if REC is not None else {}
+    return [o for o, s in st.items() if s.value in states and all(st[q] == S.COMPLETED for q in tp.get(id(o), o.parents))]
 
 
 def ensure_wrapper(algo):
@@ -237,6 +252,11 @@ def rec_executor_class():
             R = REC
             if R is None:
                 return super().run_one_tick(suspensions, assignments)
+            if R.scn.get("decoy_at") == R.tick:
+                # another simulation being set up in the same process (two runs stepped side by side) must not disturb
+                # this one: process-wide counters and registries are shared
+                Executor(num_pools=1, cpus_per_pool=1, ram_gb_per_pool=1, ticks_per_second=R.scn["cfg"]["tps"])
+                R.probe("other_executor_constructed")
             res = super().run_one_tick(suspensions, assignments)
             t = R.tick
             R.acct["accepted"] += len(assignments)
@@ -269,6 +289,15 @@ def rec_executor_class():
                     chk()
                 except Violation as v_:
                     found.append(v_)
+            defer = tuple(R.scn.get("defer") or ())
+            if defer:
+                # a check aimed at a policy property lets the snapshot rules of neighbouring properties ride along: the
+                # run goes on so that its own oracles see what the defect does next; raised at the end if nothing else fired
+                for v_ in found:
+                    if v_.rule.startswith(defer) and R.deferred is None:
+                        v_.tick = v_.tick if v_.tick is not None else t
+                        R.deferred = v_
+                found = [v_ for v_ in found if not v_.rule.startswith(defer)]
             if found:
                 first = found[0]
                 first.detail = dict(first.detail, also=[{"rule": v_.rule, "detail": v_.detail} for v_ in found[1:]])
@@ -291,6 +320,8 @@ def _sys_tick_checks(R, ex, t):
                 seen[id(o)] = c.container_id
                 if o.state() not in (S.ASSIGNED, S.RUNNING, S.SUSPENDING, S.COMPLETED):
                     raise Violation("C02.live_state", {"op": R.okey(o), "state": o.state().value, "container": c.container_id}, t)
+    if R.declared_differs is not None:
+        raise Violation("C01.parents_changed", dict(R.declared_differs, when="on arrival"), t)
     for k, p in enumerate(R.pipes):
         rs = p.runtime_status()
         if rs.finish_tick is not None:
@@ -392,6 +423,7 @@ def run(scn, oracles=(), workload_factory=None, keep_rounds=True):
     global REC
     import_repo()
     exdrv.install_transition_seam()
+    exdrv.KILL_MEM.clear()
     import eudoxia.simulator as simmod
     from eudoxia.executor.container import Container
     cfg = scn["cfg"]
@@ -448,8 +480,12 @@ def run(scn, oracles=(), workload_factory=None, keep_rounds=True):
         for o in rec.oracles:
             if hasattr(o, "on_end"):
                 o.on_end(rec, stats)
+        if rec.deferred is not None:
+            raise rec.deferred
     except Violation as v:
         v.tick = v.tick if v.tick is not None else rec.tick
+        if rec.deferred is not None and v is not rec.deferred:
+            v.detail = dict(v.detail, also=list(v.detail.get("also", [])) + [{"rule": rec.deferred.rule, "detail": rec.deferred.detail}])
         out["violation"] = v.to_json()
         out["log_tail"] = [list(e) for e in rec.log.events[-40:]]
     except Discard as d:
